@@ -253,15 +253,40 @@ package memory
 //@   ensures[fresh] result0 != nil ==> fresh(result0)
 //@   ensures[unknown-operation-is-an-error] (filterOptions.Operation != filter.Latest && filterOptions.Operation != filter.IsImmutable && filterOptions.Operation != filter.IsTemporal) ==> result1 != nil
 //@   ensures[subset] result1 == nil ==> forall k string :: {has(result0, k)} has(result0, k) ==> exists u string :: {hexu(u)} k == hexu(u) && has(memoryTriples, u) && result0[k] == memoryTriples[u] && qmatch(pQuery, memoryTriples[u])
+//@   ensures[latest-are-maximal] result1 == nil && filterOptions.Operation == filter.Latest ==> forall k string, u string :: {result0[k], memoryTriples[u]} has(result0, k) && has(memoryTriples, u) && cand(pQuery, memoryTriples[u], filterOptions.Field) && grp(memoryTriples[u], filterOptions.Field) == grp(result0[k], filterOptions.Field) ==> at(memoryTriples[u], filterOptions.Field) <= at(result0[k], filterOptions.Field)
+//@   ensures[every-latest-is-returned] result1 == nil && filterOptions.Operation == filter.Latest ==> forall u string :: {memoryTriples[u]} has(memoryTriples, u) && cand(pQuery, memoryTriples[u], filterOptions.Field) && (forall w string :: {memoryTriples[w]} has(memoryTriples, w) && cand(pQuery, memoryTriples[w], filterOptions.Field) && grp(memoryTriples[w], filterOptions.Field) == grp(memoryTriples[u], filterOptions.Field) ==> at(memoryTriples[w], filterOptions.Field) <= at(memoryTriples[u], filterOptions.Field)) ==> has(result0, hexu(u)) && result0[hexu(u)] == memoryTriples[u]
 //@   ensures[isImmutable] result1 == nil && filterOptions.Operation == filter.IsImmutable ==> forall u string :: {has(result0, hexu(u))} has(result0, hexu(u)) <==> (has(memoryTriples, u) && qmatch(pQuery, memoryTriples[u]) && fpred(memoryTriples[u], filterOptions.Field) != nil && fpred(memoryTriples[u], filterOptions.Field).anchor == nil)
 //@   ensures[isTemporal] result1 == nil && filterOptions.Operation == filter.IsTemporal ==> forall u string :: {has(result0, hexu(u))} has(result0, hexu(u)) <==> (has(memoryTriples, u) && qmatch(pQuery, memoryTriples[u]) && fpred(memoryTriples[u], filterOptions.Field) != nil && fpred(memoryTriples[u], filterOptions.Field).anchor != nil)
 
 // latest: soundness part (every result is a temporal candidate of the input, unchanged). The
 // maximality/completeness part of the property is stated separately below.
+// cand: a temporal candidate of the latest filter; grp: its group (the predicate identifier, as the hex
+// partial UUID the code keys by); at: its instant.
+//@ spec macro cand(q *predicate.Predicate, t *triple.Triple, f filter.Field) Bool = qmatch(q, t) && fpred(t, f) != nil && fpred(t, f).anchor != nil
+//@ spec macro grp(t *triple.Triple, f filter.Field) String = hexu(ppu(fpred(t, f)))
+//@ spec macro at(t *triple.Triple, f filter.Field) Int = inst(fpred(t, f).anchor)
 //@ func latestFilter
 //@   opt terminates
 //@   opt strings opaque
 //@   requires filterOptions != nil && keyedByUUID(memoryTriples)
+//@   ensures[latest-are-maximal] result1 == nil ==> forall k string, u string :: {result0[k], memoryTriples[u]} has(result0, k) && has(memoryTriples, u) && cand(pQuery, memoryTriples[u], filterOptions.Field) && grp(memoryTriples[u], filterOptions.Field) == grp(result0[k], filterOptions.Field) ==> at(memoryTriples[u], filterOptions.Field) <= at(result0[k], filterOptions.Field)
+//@   ensures[every-latest-is-returned] result1 == nil ==> forall u string :: {memoryTriples[u]} has(memoryTriples, u) && cand(pQuery, memoryTriples[u], filterOptions.Field) && (forall w string :: {memoryTriples[w]} has(memoryTriples, w) && cand(pQuery, memoryTriples[w], filterOptions.Field) && grp(memoryTriples[w], filterOptions.Field) == grp(memoryTriples[u], filterOptions.Field) ==> at(memoryTriples[w], filterOptions.Field) <= at(memoryTriples[u], filterOptions.Field)) ==> has(result0, hexu(u)) && result0[hexu(u)] == memoryTriples[u]
+//@   loop 0 invariant[maximal-visited-are-members] forall u string :: {memoryTriples[u]} $vis[u] && has(memoryTriples, u) && cand(pQuery, memoryTriples[u], filterOptions.Field) && at(memoryTriples[u], filterOptions.Field) == inst(lastTA[grp(memoryTriples[u], filterOptions.Field)]) ==> has(trps, grp(memoryTriples[u], filterOptions.Field)) && has(trps[grp(memoryTriples[u], filterOptions.Field)], hexu(u)) && trps[grp(memoryTriples[u], filterOptions.Field)][hexu(u)] == memoryTriples[u]
+//@   loop 0 invariant[maximum-attained] forall g string :: {lastTA[g]} has(lastTA, g) && lastTA[g] != nil ==> exists w string :: {memoryTriples[w]} $vis[w] && has(memoryTriples, w) && cand(pQuery, memoryTriples[w], filterOptions.Field) && grp(memoryTriples[w], filterOptions.Field) == g && at(memoryTriples[w], filterOptions.Field) == inst(lastTA[g])
+//@   loop 0 invariant[upper-bound] forall u string :: {memoryTriples[u]} $vis[u] && has(memoryTriples, u) && cand(pQuery, memoryTriples[u], filterOptions.Field) ==> has(lastTA, grp(memoryTriples[u], filterOptions.Field)) && lastTA[grp(memoryTriples[u], filterOptions.Field)] != nil && at(memoryTriples[u], filterOptions.Field) <= inst(lastTA[grp(memoryTriples[u], filterOptions.Field)])
+//@   loop 0 invariant[members-at-the-maximum] forall g string, k string :: {has(trps[g], k)} has(trps, g) && has(trps[g], k) ==> has(lastTA, g) && lastTA[g] != nil && grp(trps[g][k], filterOptions.Field) == g && at(trps[g][k], filterOptions.Field) == inst(lastTA[g])
+//@   loop 1 invariant[maximal-are-members] forall u string :: {memoryTriples[u]} has(memoryTriples, u) && cand(pQuery, memoryTriples[u], filterOptions.Field) && at(memoryTriples[u], filterOptions.Field) == inst(lastTA[grp(memoryTriples[u], filterOptions.Field)]) ==> has(trps, grp(memoryTriples[u], filterOptions.Field)) && has(trps[grp(memoryTriples[u], filterOptions.Field)], hexu(u)) && trps[grp(memoryTriples[u], filterOptions.Field)][hexu(u)] == memoryTriples[u]
+//@   loop 1 invariant[maximum-attained] forall g string :: {lastTA[g]} has(lastTA, g) && lastTA[g] != nil ==> exists w string :: {memoryTriples[w]} has(memoryTriples, w) && cand(pQuery, memoryTriples[w], filterOptions.Field) && grp(memoryTriples[w], filterOptions.Field) == g && at(memoryTriples[w], filterOptions.Field) == inst(lastTA[g])
+//@   loop 1 invariant[visited-groups-flattened] forall g string, k string :: {has(trps[g], k)} $vis[g] && has(trps, g) && has(trps[g], k) ==> has(trpsByUUID, k) && trpsByUUID[k] == trps[g][k]
+//@   loop 2 invariant[maximal-are-members] forall u string :: {memoryTriples[u]} has(memoryTriples, u) && cand(pQuery, memoryTriples[u], filterOptions.Field) && at(memoryTriples[u], filterOptions.Field) == inst(lastTA[grp(memoryTriples[u], filterOptions.Field)]) ==> has(trps, grp(memoryTriples[u], filterOptions.Field)) && has(trps[grp(memoryTriples[u], filterOptions.Field)], hexu(u)) && trps[grp(memoryTriples[u], filterOptions.Field)][hexu(u)] == memoryTriples[u]
+//@   loop 2 invariant[maximum-attained] forall g string :: {lastTA[g]} has(lastTA, g) && lastTA[g] != nil ==> exists w string :: {memoryTriples[w]} has(memoryTriples, w) && cand(pQuery, memoryTriples[w], filterOptions.Field) && grp(memoryTriples[w], filterOptions.Field) == g && at(memoryTriples[w], filterOptions.Field) == inst(lastTA[g])
+//@   loop 2 invariant[visited-members-flattened] (forall k string :: {$vis[k]} $vis[k] ==> has(trpsByUUID, k) && trpsByUUID[k] == m[k]) && (forall g string, k string :: {has(trps[g], k)} trps[g] != m && $outervis[g] && has(trps, g) && has(trps[g], k) ==> has(trpsByUUID, k) && trpsByUUID[k] == trps[g][k])
+//@   loop 1 invariant[upper-bound] forall u string :: {memoryTriples[u]} has(memoryTriples, u) && cand(pQuery, memoryTriples[u], filterOptions.Field) ==> has(lastTA, grp(memoryTriples[u], filterOptions.Field)) && lastTA[grp(memoryTriples[u], filterOptions.Field)] != nil && at(memoryTriples[u], filterOptions.Field) <= inst(lastTA[grp(memoryTriples[u], filterOptions.Field)])
+//@   loop 1 invariant[members-at-the-maximum] forall g string, k string :: {has(trps[g], k)} has(trps, g) && has(trps[g], k) ==> has(lastTA, g) && lastTA[g] != nil && grp(trps[g][k], filterOptions.Field) == g && at(trps[g][k], filterOptions.Field) == inst(lastTA[g])
+//@   loop 1 invariant[flattened-are-maximal] forall k string :: {has(trpsByUUID, k)} has(trpsByUUID, k) ==> has(lastTA, grp(trpsByUUID[k], filterOptions.Field)) && lastTA[grp(trpsByUUID[k], filterOptions.Field)] != nil && at(trpsByUUID[k], filterOptions.Field) == inst(lastTA[grp(trpsByUUID[k], filterOptions.Field)])
+//@   loop 2 invariant[upper-bound] forall u string :: {memoryTriples[u]} has(memoryTriples, u) && cand(pQuery, memoryTriples[u], filterOptions.Field) ==> has(lastTA, grp(memoryTriples[u], filterOptions.Field)) && lastTA[grp(memoryTriples[u], filterOptions.Field)] != nil && at(memoryTriples[u], filterOptions.Field) <= inst(lastTA[grp(memoryTriples[u], filterOptions.Field)])
+//@   loop 2 invariant[members-at-the-maximum] forall g string, k string :: {has(trps[g], k)} has(trps, g) && has(trps[g], k) ==> has(lastTA, g) && lastTA[g] != nil && grp(trps[g][k], filterOptions.Field) == g && at(trps[g][k], filterOptions.Field) == inst(lastTA[g])
+//@   loop 2 invariant[flattened-are-maximal] forall k string :: {has(trpsByUUID, k)} has(trpsByUUID, k) ==> has(lastTA, grp(trpsByUUID[k], filterOptions.Field)) && lastTA[grp(trpsByUUID[k], filterOptions.Field)] != nil && at(trpsByUUID[k], filterOptions.Field) == inst(lastTA[grp(trpsByUUID[k], filterOptions.Field)])
 //@   ensures[bad-field-is-an-error] (filterOptions.Field != filter.PredicateField && filterOptions.Field != filter.ObjectField) ==> result1 != nil
 //@   ensures[value-or-error] (result0 != nil && result1 == nil) || (result0 == nil && result1 != nil)
 //@   ensures[fresh] result0 != nil ==> fresh(result0)
